@@ -297,6 +297,8 @@ type Gen struct {
 	fragN   int
 	MaxD    int
 	NoResol bool
+	// ResolverOK: may a field-resolver field be selected at a position with this context (see childCtx)?
+	ResolverOK func(ctx string) bool
 }
 
 // fields whose RPC the mock service does not implement (the service, not the datasource, fails)
@@ -304,7 +306,7 @@ var unimplemented = map[string]bool{"Subcategory.featuredCategory": true}
 
 var strPool = []string{"1", "2", "3", "test", "popularity_score", "unavailable", "A", "electronics", "", "x y", "999"}
 var idPool = []string{"1", "2", "3", "4", "7", "42", "999", "abc"}
-var intPool = []int{0, 1, 2, 3, 5, 10, 100, -1}
+var intPool = []int{0, 1, 2, 3, 5, 10, 100}
 var floatPool = []float64{0, 0.5, 1, 2.5, 10, 99.99, 1000}
 
 func (g *Gen) genValue(t *TypeRef, depth int) any {
@@ -375,7 +377,7 @@ func (g *Gen) newVar(op *Op, t *TypeRef) string {
 	return name
 }
 
-func (g *Gen) newField(op *Op, fd *FieldDef, depth int) *Node {
+func (g *Gen) newField(op *Op, fd *FieldDef, depth int, ctx string) *Node {
 	g.uid++
 	n := &Node{Kind: "f", UID: g.uid, Name: fd.Name}
 	for _, a := range fd.Args {
@@ -386,7 +388,7 @@ func (g *Gen) newField(op *Op, fd *FieldDef, depth int) *Node {
 	}
 	base := fd.Type.Base()
 	if g.S.IsComposite(base) {
-		n.Sel = g.genSel(op, base, depth+1, false)
+		n.Sel = g.genSel(op, base, depth+1, false, childCtx(g.S, ctx, fd))
 	}
 	return n
 }
@@ -397,7 +399,7 @@ func (g *Gen) typenameField() *Node {
 }
 
 // selectable fields of a type outside of the entity root: no @external / @requires fields.
-func (g *Gen) candidates(t *TypeDef, depth int, entityRoot bool) []*FieldDef {
+func (g *Gen) candidates(t *TypeDef, depth int, entityRoot bool, ctx string) []*FieldDef {
 	var out []*FieldDef
 	for _, f := range t.Fields {
 		if strings.HasPrefix(f.Name, "__") || f.Name == "_entities" || f.Name == "_service" {
@@ -409,7 +411,7 @@ func (g *Gen) candidates(t *TypeDef, depth int, entityRoot bool) []*FieldDef {
 		if f.Requires != "" && !entityRoot {
 			continue
 		}
-		if f.Resolver && g.NoResol {
+		if f.Resolver && (g.NoResol || (g.ResolverOK != nil && !g.ResolverOK(ctx))) {
 			continue
 		}
 		if depth >= g.MaxD && g.S.IsComposite(f.Type.Base()) {
@@ -420,8 +422,8 @@ func (g *Gen) candidates(t *TypeDef, depth int, entityRoot bool) []*FieldDef {
 	return out
 }
 
-func (g *Gen) pickFields(op *Op, t *TypeDef, depth int, entityRoot bool, min int) []*Node {
-	c := g.candidates(t, depth, entityRoot)
+func (g *Gen) pickFields(op *Op, t *TypeDef, depth int, entityRoot bool, min int, ctx string) []*Node {
+	c := g.candidates(t, depth, entityRoot, ctx)
 	if len(c) == 0 {
 		return nil
 	}
@@ -434,30 +436,30 @@ func (g *Gen) pickFields(op *Op, t *TypeDef, depth int, entityRoot bool, min int
 	sort.Ints(idx)
 	var out []*Node
 	for _, i := range idx {
-		out = append(out, g.newField(op, c[i], depth))
+		out = append(out, g.newField(op, c[i], depth, ctx))
 	}
 	return out
 }
 
-func (g *Gen) genSel(op *Op, typeName string, depth int, entityRoot bool) []*Node {
+func (g *Gen) genSel(op *Op, typeName string, depth int, entityRoot bool, ctx string) []*Node {
 	t := g.S.Types[typeName]
 	var out []*Node
 	switch t.Kind {
 	case "object":
-		out = g.pickFields(op, t, depth, entityRoot, 1)
+		out = g.pickFields(op, t, depth, entityRoot, 1, ctx)
 		if g.R.Chance(1, 5) || len(out) == 0 {
 			out = append(out, g.typenameField())
 		}
 	case "interface", "union":
 		if t.Kind == "interface" {
-			out = g.pickFields(op, t, depth, false, 0)
+			out = g.pickFields(op, t, depth, false, 0, ctx)
 		}
 		if g.R.Chance(1, 2) {
 			out = append(out, g.typenameField())
 		}
 		for _, m := range t.Possible {
 			if g.R.Chance(2, 3) {
-				sel := g.pickFields(op, g.S.Types[m], depth, false, 1)
+				sel := g.pickFields(op, g.S.Types[m], depth, false, 1, ctx)
 				if g.R.Chance(1, 6) {
 					sel = append(sel, g.typenameField())
 				}
@@ -496,7 +498,7 @@ func (g *Gen) GenOp(mode string) *Op {
 	case "mutation":
 		op.Kind = "mutation"
 		c := g.rootCandidates("Mutation")
-		op.Root = []*Node{g.newField(op, common.PickOf(g.R, c), 0)}
+		op.Root = []*Node{g.newField(op, common.PickOf(g.R, c), 0, "")}
 	case "entity":
 		g.genEntityOp(op)
 	default:
@@ -515,7 +517,7 @@ func (g *Gen) GenOp(mode string) *Op {
 				continue
 			}
 			seen[fd.Name] = true
-			op.Root = append(op.Root, g.newField(op, fd, 0))
+			op.Root = append(op.Root, g.newField(op, fd, 0, ""))
 		}
 	}
 	return op
@@ -547,7 +549,7 @@ func (g *Gen) genEntityOp(op *Op) {
 	needed := map[string][]string{} // type -> @requires selections whose externals must be in the representations
 	for _, e := range chosen {
 		t := g.S.Types[e]
-		sel := g.pickFields(op, t, 1, true, 1)
+		sel := g.pickFields(op, t, 1, true, 1, "al")
 		if g.R.Chance(1, 3) {
 			sel = append(sel, g.typenameField())
 		}
@@ -594,12 +596,10 @@ func (g *Gen) fillFromSel(obj map[string]any, typeName string, sel []*Node) {
 				obj["__typename"] = typeName
 				continue
 			}
-			if _, ok := obj[n.Name]; ok {
-				if m, ok := obj[n.Name].(map[string]any); ok && n.Sel != nil {
-					fd := g.S.Field(typeName, n.Name)
-					if fd != nil && !g.S.IsAbstract(fd.Type.Base()) {
-						g.fillFromSel(m, fd.Type.Base(), n.Sel)
-					}
+			if ex, ok := obj[n.Name]; ok {
+				// a second @requires selection over the same external field: complete the value
+				if fd := g.S.Field(typeName, n.Name); fd != nil && n.Sel != nil {
+					g.mergeInto(ex, fd.Type.Base(), n.Sel)
 				}
 				continue
 			}
@@ -612,6 +612,23 @@ func (g *Gen) fillFromSel(obj map[string]any, typeName string, sel []*Node) {
 			if n.Cond == "" || g.S.TypeApplies(n.Cond, typeName) {
 				g.fillFromSel(obj, typeName, n.Sel)
 			}
+		}
+	}
+}
+
+func (g *Gen) mergeInto(v any, base string, sel []*Node) {
+	switch x := v.(type) {
+	case map[string]any:
+		concrete := base
+		if g.S.IsAbstract(base) {
+			if tn, ok := x["__typename"].(string); ok {
+				concrete = tn
+			}
+		}
+		g.fillFromSel(x, concrete, sel)
+	case []any:
+		for _, it := range x {
+			g.mergeInto(it, base, sel)
 		}
 	}
 }
